@@ -5,8 +5,9 @@ tier=$1; shift
 ids="$@"; [ -z "$ids" ] && ids="C01 C02 C03 C04 C05 C06 C07 C08 C09 C10 C11 C12 C13 C14 C15 C16 C17 C18 C19 C20"
 cd /verif
 for id in $ids; do
+  ev=""; [ "$tier" = thorough ] && ev="--evidence /verif/evidence/by-tier/$id.thorough.json"  # keep evidence/<id>.json for the quick run
   t0=$(date +%s)
-  out=$(VERIF_JOBLOG=/tmp/joblog_${tier}_$id.txt timeout 5400 ./bin/vcheck run $id --tier $tier 2>&1); rc=$?
+  out=$(VERIF_JOBLOG=/tmp/joblog_${tier}_$id.txt timeout 5400 ./bin/vcheck run $id --tier $tier $ev 2>&1); rc=$?
   t1=$(date +%s)
   echo "$id rc=$rc $((t1-t0))s $(echo "$out" | grep -E "^$id $tier:" | tail -1)"
   echo "$out" | grep -E "VIOLATION|ERROR|INCONCLUSIVE|KNOWN-FINDING" | head -5
